@@ -416,7 +416,44 @@ def scripted(kind, size, seed):
     return sim
 
 
+def flood(n_req):
+    """n_req requests in progress on one connection (bare sessions, batches of 5000): every request reaches the server,
+    both ends stay OPENED, and the oldest, a middle and the newest one can still be answered."""
+    c, s = sl.LDAPClient(), sl.LDAPServer()
+    got = 0
+    try:
+        for base in range(0, n_req, 5000):
+            for k in range(min(5000, n_req - base)):
+                c.extended_request("1.2.3", None) if k % 3 else c.search_request("dc=x")
+            data = c.data_to_send()
+            half = len(data) // 2
+            got += len(s.receive(data[:half])) + len(s.receive(data[half:]))
+        if got != n_req:
+            return [("flood:lost", f"{n_req} requests sent, the server returned {got}")]
+        for mid in (1, n_req // 2, n_req):
+            try:
+                s.extended_response(mid) if (mid - 1) % 5000 % 3 else s.search_result_done(mid)
+            except sl.LDAPError:
+                s.search_result_done(mid) if (mid - 1) % 5000 % 3 else s.extended_response(mid)
+            back = c.receive(s.data_to_send())
+            if len(back) != 1 or back[0].message_id != mid:
+                return [("flood:answer-lost", f"answer to request {mid} of {n_req}: client returned {back!r}")]
+        if (c.state.name, s.state.name) != ("OPENED", "OPENED"):
+            return [("flood:state", f"client {c.state.name}, server {s.state.name}")]
+    except sl.LDAPError as e:
+        return [(f"protocol-error-in-legal-conversation:flood:{type(e).__name__}", f"with {got} of {n_req} requests delivered: {type(e).__name__}: {str(e)[:160]}")]
+    return []
+
+
 def run_shard(ctx: Ctx, acc: Acc):
+    if ctx.shard in (9, 10):
+        n_req = 70_000 if ctx.shard == 9 else 150_000
+        acc.case()
+        acc.count("scripted-long-conversations")
+        acc.count("flood-of-open-requests")
+        acc.nontrivial("flood", n_req)
+        for key, what in flood(n_req):
+            acc.violation(key, what, {"flood": n_req})
     combos = [("sasl-rounds", 3), ("sasl-rounds", 17), ("sasl-rounds", 40), ("open-searches", 33), ("open-searches", 257), ("open-searches", 600), ("starttls-again", 3), ("starttls-again", 20)]
     for ci, (kind, size) in enumerate(combos):
         if ci % ctx.nshards != ctx.shard:
@@ -454,6 +491,8 @@ def run_shard(ctx: Ctx, acc: Acc):
 
 
 def replay(w):
+    if w.get("flood"):
+        return flood(w["flood"])
     if w.get("scripted"):
         return scripted(*w["scripted"]).vio[:2]
     sim = run_sim(tuple(w["seed_parts"]), w["steps_n"], w.get("want_term"))
